@@ -631,10 +631,12 @@ func main() {
 	harness.Main(harness.Check{
 		ID:    "C23",
 		Level: "exploration",
-		Rule: "one case = one PRNG history of 40-70 (thorough 40-100) steps on 3-4 nodes, a /26 IPv4 pool with /30 blocks (and a /122 IPv6 pool with /126 blocks for dual-stack handles), leak grace 15m/5m/0/unset, optional 120 s IP cooldown: " +
-			"pod create / status report (sometimes a foreign IP) / delete with lost CNI DEL / same-name re-create / sandbox restart / finish (Evicted, Succeeded), node delete (with or without the calico node) and re-join, tunnel and unknown-source allocations; " +
-			"lagging in-order delivery of syncer, pod and node events; virtual time advances of 1-16 min; syncs (dirty-only and periodic full) with datastore faults on the controller's client and API Get errors; controller restarts; " +
-			"every 40th case runs the real Start() loop and watcher syncer instead (race detection). Non-trivial = the controller released at least one address; distinct by operation list",
+		Rule: "one case = one PRNG history of 40-70 (thorough 40-100) steps on 3-4 nodes, a /27 IPv4 pool with /30 blocks (and a /123 IPv6 pool with /126 blocks for dual-stack handles), leak grace 15m/5m/0/unset, optional 120 s IP cooldown: " +
+			"pod create / status report (sometimes a foreign IP or one family only) / delete with lost CNI DEL / same-name re-create / sandbox restart / finish (Evicted, Succeeded), node delete (with or without the calico node) and re-join, " +
+			"tunnel addresses (assign, release, re-claim under the same handle), unknown-source allocations, hand-over of an empty block to another node; " +
+			"in-order delivery with lag of every committed block / calico-node revision, of pod and of node events; syncer re-lists that skip intermediate revisions (a quarter of the cases only ever re-list); virtual time advances of 1-16 min; " +
+			"syncs (dirty-only and periodic full) with datastore faults on the controller's client and API Get errors; controller restarts; " +
+			"every 40th case runs the real main loop and watcher syncer instead (race detection). Non-trivial = the controller released at least one address; distinct by operation list",
 		Assumptions: []string{
 			"internal/casstore (etcd-like CAS semantics) under the real libcalico-go IPAM client; the CNI side uses the same real client without faults",
 			"the harness's Kubernetes API: pods/nodes maps served through Pods().Get on a fake clientset; informer caches receive its events in order with arbitrary lag; no pod annotations, no host-network pods",
